@@ -202,7 +202,7 @@ func describeD(v ssa.Value, d int) string {
 	case *ssa.Range:
 		return "range(" + describeD(x.X, d+1) + ")"
 	case *ssa.Select:
-		return "select"
+		return "select:" + x.Name()
 	}
 	return fmt.Sprintf("%T:%s", v, v.Name())
 }
@@ -1252,7 +1252,6 @@ func errChecked(ci ssa.CallInstruction) bool {
 	}
 	return false
 }
-
 
 // arrayLitElems returns the values stored into the elements of a literal
 // array allocation (variadic argument list / slice literal), by index.
